@@ -290,6 +290,28 @@ OPERAND_X = [
     'str-comma', 'str1', 'str2']
 LEFT_X = ['bool', 'str-complex', 'str-comma', 'str1', 'str2', 'list-int', 'list-complex', 'list-bool', 'list1', 'list2', 'list3',
           'tuple-int', 'objz', 'obj1z', 'obj@same', 'obj1@samen', 'obj@uint8n', 'obj1@uint8n', 'obj@float32n', 'obj3n']
+# neutral-element operands (wave 6): x + 0, 0 + x, x - 0, 0 - x, x * 1, 1 * x are the operations for which "return the
+# operand itself" is a tempting shortcut (sum() support, fast paths).  Values are trivially right; what is decided is the
+# freshness clause (new object, no shared memory, operands untouched) and the contract.  Spellings of the neutral element:
+# Python int / float / -0.0 / complex / bool, numpy scalars and 0-d arrays (right-hand side only, as the quantifier says),
+# constant ndarrays, lists, tuples, strings and second objects (full length, length 1, the left operand's own dtype, with an
+# all-zero noise).  Zeros go to + and -, ones to * (bool True is the old kind 'bool'), each on both sides; the int spelling
+# sits in the core alphabet, so that it is a prefix and a final op of the depth-2 programs.
+ZERO_PY = ['int0', 'float0', 'float-0', 'complex0', 'false']
+ZERO_NP = ['np@int64=0', 'np@float64=0', 'np@bool=0', '0d@int=0', '0d@float=0']
+ZERO_SEQ = ['nd=0', 'nd1=0', 'list=0', 'list1=0', 'tuple1=0', 'str=0']
+ZERO_OBJ = ['obj=0', 'obj1=0', 'obj@same=0', 'obj1@same=0', 'obj1z=0']
+ONE_PY = ['int1', 'float1', 'complex1']
+ONE_NP = ['np@int64=1', 'np@float64=1', '0d@int=1', '0d@float=1']
+ONE_SEQ = ['nd=1', 'nd1=1', 'list1=1', 'str=1']
+ONE_OBJ = ['obj=1', 'obj1=1', 'obj1@same=1']
+NEUTRAL_CORE = {'+': ['int0'], '-': ['int0'], '*': ['int1']}
+NEUTRAL_RIGHT = {'+': ZERO_PY + ZERO_NP + ZERO_SEQ + ZERO_OBJ, '*': ONE_PY + ONE_NP + ONE_SEQ + ONE_OBJ}
+NEUTRAL_LEFT = {'+': ZERO_PY + ZERO_SEQ[2:] + ZERO_OBJ, '*': ONE_PY + ONE_SEQ[2:] + ONE_OBJ}
+NEUTRAL_RIGHT['-'], NEUTRAL_LEFT['-'] = NEUTRAL_RIGHT['+'], NEUTRAL_LEFT['+']
+# built-in sum(): starts with 0 + first element.  'x' is the object under test, '|k' an explicit start value
+SUM_CORE = ['x']
+SUM_X = ['x,objn', 'obj,x', 'x,x', 'x,obj', 'x,obj1n', 'objn,x', 'x,obj@samen', 'x,obj=0', 'x|int0', 'x|float0', 'x|false', 'x,objn|complex0', 'x|obj1=0']
 ERR_CORE = ['obj+1', 'list-1']
 ERR_X = ['objn+1', 'list+1', 'nd-1', 'tuple+1', 'str+1', 'list-size', 'nd2+1', 'r:list-1', 'r:list+1', 'r:str+1']
 COPY_CORE = [None, 1, 2]
@@ -307,6 +329,9 @@ def core_ops():
         ops += [('err', o, k) for k in ERR_CORE]
     ops += [('slice', name) for name, _ in SLICES_CORE]
     ops += [('copy', n) for n in COPY_CORE] + TF_CORE + [('bin', '+', 'list3')]
+    for o in '+-*':         # wave 6: the neutral scalars of each operator, both operand orders, and sum()
+        ops += [('bin', o, k) for k in NEUTRAL_CORE[o]] + [('rbin', o, k) for k in NEUTRAL_CORE[o]]
+    ops += [('sum', k) for k in SUM_CORE]
     return ops
 
 
@@ -316,6 +341,9 @@ def full_ops():
         ops += [('bin', o, k) for k in OPERAND_X if not (k == 'list3' and o == '+')]
         ops += [('rbin', o, k) for k in LEFT_X]
         ops += [('err', o, k) for k in ERR_X]
+        ops += [('bin', o, k) for k in NEUTRAL_RIGHT[o] if k not in NEUTRAL_CORE[o]]
+        ops += [('rbin', o, k) for k in NEUTRAL_LEFT[o] if k not in NEUTRAL_CORE[o]]
+    ops += [('sum', k) for k in SUM_X]
     ops += [('slice', name) for name, _ in SLICES_X]
     ops += [('copy', n) for n in COPY_X] + TF_X
     return ops
@@ -326,23 +354,30 @@ def keep_ops():
     ops = [('slice', name) for name, _ in SLICES_CORE] + [('copy', None), ('copy', 1)]
     ops += [('bin', o, k) for o in '+-*' for k in ('obj@same', 'obj@samen', 'obj1@samen', 'self')]
     ops += [('rbin', '-', 'obj@same'), ('rbin', '-', 'obj1@samen')]
+    ops += [('rbin', '+', 'obj1@same=0'), ('bin', '-', 'obj@same=0'), ('rbin', '*', 'obj1@same=1')]     # neutral, dtype-preserving
     return ops
 
 
 def deep_ops(which='float'):
     if which == 'same':     # stays in the dtype of the leaf
         return [('bin', '+', 'obj@samen'), ('bin', '-', 'obj1@samen'), ('bin', '*', 'obj1@same'), ('rbin', '-', 'obj@same'),
-                ('bin', '-', 'self'), ('slice', '1:'), ('slice', '::2'), ('slice', '::-1'), ('slice', 'int-1'), ('copy', None)]
+                ('bin', '-', 'self'), ('slice', '1:'), ('slice', '::2'), ('slice', '::-1'), ('slice', 'int-1'), ('copy', None),
+                ('rbin', '+', 'obj1@same=0'), ('bin', '*', 'obj1@same=1')]      # neutral: must reach the state copy() reaches, as a new object
     return [('bin', '+', 'objn'), ('bin', '-', 'obj1n'), ('bin', '*', 'float'), ('rbin', '-', 'list'), ('bin', '+', 'obj'),
-            ('rbin', '+', 'obj1n'), ('slice', '1:'), ('slice', '::2'), ('slice', '::-1'), ('copy', None)]
+            ('rbin', '+', 'obj1n'), ('slice', '1:'), ('slice', '::2'), ('slice', '::-1'), ('copy', None),
+            ('rbin', '+', 'int0'), ('bin', '*', 'int1')]      # neutral (same remark)
 
 
-OBJ_RE = re.compile(r'^obj(1|3)?(?:@([a-z0-9]+?))?([nz]?)$')
+OBJ_RE = re.compile(r'^obj(1|3)?(?:@([a-z0-9]+?))?([nz]?)(?:=([01]))?$')
 NP_SCALARS = {'np@bool': np.True_, 'np@int8': np.int8(-2), 'np@uint8': np.uint8(3), 'np@int64': np.int64(3),
               'np@float16': np.float16(1.5), 'np@float32': np.float32(1.5), 'np@complex64': np.complex64(1 - 2j),
               'np@complex128': np.complex128(1 - 2j), 'npfloat': np.float64(1.5),
-              '0d@float': np.array(1.5), '0d@int': np.array(3), '0d@complex': np.array(0.5 + 1j), '0d@uint8': np.array(3, dtype=np.uint8)}
-PY_SCALARS = {'int': 2, 'float': 0.5, 'complex': (1 + 2j), 'bool': True}
+              '0d@float': np.array(1.5), '0d@int': np.array(3), '0d@complex': np.array(0.5 + 1j), '0d@uint8': np.array(3, dtype=np.uint8),
+              'np@int64=0': np.int64(0), 'np@float64=0': np.float64(0.0), 'np@bool=0': np.False_,
+              '0d@int=0': np.array(0), '0d@float=0': np.array(0.0),
+              'np@int64=1': np.int64(1), 'np@float64=1': np.float64(1.0), '0d@int=1': np.array(1), '0d@float=1': np.array(1.0)}
+PY_SCALARS = {'int': 2, 'float': 0.5, 'complex': (1 + 2j), 'bool': True,
+              'int0': 0, 'float0': 0.0, 'float-0': -0.0, 'complex0': 0j, 'false': False, 'int1': 1, 'float1': 1.0, 'complex1': (1 + 0j)}
 
 
 def vals(n, dt, noise=False):
@@ -376,10 +411,14 @@ def operand(kind, m: M):
     two = m.cls == 'O2'
     mo = OBJ_RE.match(kind)
     if mo:
-        ln, dt, nz = mo.groups()
+        ln, dt, nz, cv = mo.groups()
         if ln == '3' and L != 1:
             return None
         n = {None: L, '1': 1, '3': 3}[ln]
+        if cv is not None:   # constant samples 0 / 1 (the neutral element as an object), optional all-zero noise
+            S = np.full((2, n) if two else (n,), int(cv), dtype=float if dt is None else (m.S.dtype if dt == 'same' else np.dtype(dt)))
+            N = np.zeros_like(S) if nz else None
+            return build(m.cls, S, N), S, N
         if dt is None:       # the float64 operands of the first version
             S = np.array([3.0]) if ln == '1' else np.arange(n) * 0.5 - 1.0
             N = None if not nz else (np.array([0.25]) if ln == '1' else 0.125 * (1 - 2 * (np.arange(n) % 2)))
@@ -402,6 +441,14 @@ def operand(kind, m: M):
         w = NP_SCALARS[kind]
         w = w.copy() if isinstance(w, np.ndarray) else w
         return w, np.array(w)[np.newaxis], None
+    if kind.endswith(('=0', '=1')):     # constant sequences (neutral elements)
+        c = float(kind[-1])
+        base = kind[:-2]
+        if base in ('nd1', 'list1', 'tuple1', 'str'):
+            a = np.array([c])
+            return {'nd1': a.copy(), 'list1': [c], 'tuple1': (c,), 'str': str(int(c))}[base], (a == 1 if base == 'str' else a), None   # '0' / '1' is a bit pattern
+        a = np.full(L, c)
+        return (a.tolist() if base == 'list' else a.copy()), a, None
     v = np.arange(L) * 0.25 + 2.0
     if kind == 'list':
         return [float(x) for x in v], v, None
@@ -568,6 +615,41 @@ def _apply_op(x, m: M, op):
                 viol.append((key, f'signal+noise of result != {"sum" if o == "+" else "difference"} of total fields '
                                   f'(dtypes {np.asarray(aS).dtype} {o} {np.asarray(bS).dtype})'))
             nm = M(m.cls, r.signal, r.noise)     # resynchronise (for * only the contract is stated)
+        elif kind == 'sum':
+            # built-in sum(items[, start]) = ((start + items[0]) + items[1]) ...; start defaults to the int 0
+            names, _, start = op[1].partition('|')
+            items, mods = [], []
+            for nme in names.split(','):
+                if nme == 'x':
+                    items.append(x); mods.append((m.S, m.N))
+                else:
+                    w, wS, wN = operand(nme, m)
+                    items.append(w); mods.append((wS, wN))
+            st = None
+            if start:
+                st, stS, stN = operand(start, m)
+                mods.insert(0, (stS, stN))
+            held = items + ([st] if st is not None else [])
+            sh = [snap(w) for w in held]
+            r = sum(items) if st is None else sum(items, st)
+            viol += contract(r, m.cls, m.L, tag)
+            viol += fresh(r, held, tag)
+            if not all(same(w, s0) for w, s0 in zip(held, sh)):
+                viol.append((f'operand-modified:{tag}', 'an element of the summed list (or the start value) changed'))
+            if viol:
+                return None, None, viol, tag
+            noisy = any(N is not None for _, N in mods)
+            if (r.noise is not None) != noisy:
+                viol.append((f'noise-iff:{tag}', f'result noise present={r.noise is not None}, elements noisy={noisy}'))
+            # total field: fold all elements but the first into one model operand (exact for the small operand values; the
+            # 8-eps band of total_field_ok covers the <= 2 extra roundings of a three-term float sum)
+            with np.errstate(all='ignore'):
+                bS = sum(np.asarray(S) for S, _ in mods[1:]) if len(mods) > 1 else np.array([0])
+                bNs = [np.asarray(N) for _, N in mods[1:] if N is not None]
+                bN = sum(bNs) if bNs else None
+            if not total_field_ok('+', mods[0][0], mods[0][1], bS, bN, r):
+                viol.append((f'total-field:{tag}', 'signal+noise of sum(...) != sum of the total fields of its elements'))
+            nm = M(m.cls, r.signal, r.noise)
         elif kind == 'err':
             o = op[1]
             got = err_operand(op[2], m) if m.L >= 2 else None
@@ -1026,11 +1108,15 @@ def run(ctx):
     ctx.space('ops.full', len(ops))
     ctx.space('ops.core', len(core))
     ctx.space('ops.deep', len(deep_ops()))
+    ctx.space('ops.neutral', sum(1 for op in ops if op[0] == 'sum' or (op[0] in ('bin', 'rbin') and op[2] in
+                                 NEUTRAL_RIGHT[op[1]] + NEUTRAL_LEFT[op[1]])))
     ctx.rule('explicit-state search over operator programs on the real objects in lock-step with an (S,N) array-pair model: '
              'wide-shallow = every op of the full alphabet (3 binary operators x (15+56 right-operand kinds: second objects of '
              'the same length / length 1 / the same dtype / narrow dtypes / all-zero noise / the object itself, Python and numpy '
              'scalars, 0-d arrays, ndarrays of 10 dtypes, strided and 2-row arrays, lists, tuples, strings) + 30 reflected kinds '
-             '+ 12 length-mismatch operands, 26 slice forms incl. first/last legal and first illegal index, copy()/copy(n), '
+             '+ 12 length-mismatch operands + the neutral element of each operator in every spelling on both sides (0 / 0.0 / '
+             '-0.0 / 0j / False / numpy scalars / 0-d arrays / constant arrays, lists, strings / all-zero objects for + and -, '
+             'the ones for *: 21+14 right and 14+8 left kinds) + 14 built-in sum() forms, 26 slice forms incl. first/last legal and first illegal index, copy()/copy(n), '
              '6 transforms) applied to one shared write-protected object after every prefix of depth <= D_w-1 over the core '
              'alphabet from every base leaf (3 layouts x 6 lengths x int64/float64/complex128 x noise absent/present), and '
              'after every dtype-preserving prefix from the extra leaves (8 narrow dtypes incl. bool/unsigned, 6 scale/offset '
